@@ -1,5 +1,5 @@
 from vdriver import Job
-from props import seqcases
+from props import seqcases, C03 as _C03
 
 LEVEL = "other"
 TECHNIQUE = "CBMC code contracts (DFCC, loop contracts) on hash_data/memswap/Int/Float/String hash+assign; harness proofs through the real dispatch"
@@ -45,4 +45,5 @@ def jobs(tier):
         J.append(Job("C10.hash_data.lemma.len%d" % n, "C10", "K3", "Hash/lemma_hash_data.c", "h_hash_data_lemma", ["hash_data"],
                      defines=["LEN=%d" % n], unwind=n + 2, group="C10.hash_data.lemma", bound="buffer length <= 2 (enumerated; longer lengths undecided: multiplier miter)", case="len=%d" % n))
     J += seqcases.array_jobs(tier, "C10")
+    J += _C03.tree_jobs(tier, "C10")
     return J
